@@ -1914,6 +1914,12 @@ class ContractionTree:
                 i = -1
             rng = None
 
+        if subtree_search == "random":
+            # random subtrees should be drawn from the seeded generator too
+            subtree_rng = get_rng(seed) if rng is None else rng
+        else:
+            subtree_rng = None
+
         candidates, weights = tree.calc_subtree_candidates(
             pwr=weight_pwr, what=weight_what
         )
@@ -1935,7 +1941,10 @@ class ContractionTree:
 
                 # get a subtree to possibly reconfigure
                 sub_leaves, sub_branches = tree.get_subtree(
-                    sub_root, size=subtree_size, search=subtree_search
+                    sub_root,
+                    size=subtree_size,
+                    search=subtree_search,
+                    seed=subtree_rng,
                 )
 
                 sub_leaves = frozenset(sub_leaves)
